@@ -101,9 +101,9 @@ func c12prop(ev *evid.Rec) func(rt *rapid.T) {
 		var accounts []hlsim.AccountSpec
 		for i := range specs {
 			specs[i] = spec{read: rapid.IntRange(0, 3).Draw(rt, fmt.Sprintf("read%d", i)) != 0, send: rapid.IntRange(0, 3).Draw(rt, fmt.Sprintf("send%d", i)) != 0, open: rapid.IntRange(0, 3).Draw(rt, fmt.Sprintf("open%d", i)) != 0}
-			switch rapid.IntRange(0, 4).Draw(rt, fmt.Sprintf("namek%d", i)) {
+			switch rapid.IntRange(0, 2).Draw(rt, fmt.Sprintf("namek%d", i)) {
 			case 0:
-				specs[i].name = []byte(rapid.SampledFrom([]string{"a", "exactly13char", "fourteen chars", "caf\xc3\xa9 latin", "\xff\xfe bad utf8 name", strings.Repeat("w", 40), "twelve chars"}).Draw(rt, fmt.Sprintf("name%d", i)))
+				specs[i].name = []byte(rapid.SampledFrom([]string{"a", "exactly13char", "fourteen chars", "caf\xc3\xa9 latin", "\xff\xfe bad utf8 name", strings.Repeat("w", 40), "twelve chars", "100% bob", "%", "%s %d %v", "%!x(MISSING)"}).Draw(rt, fmt.Sprintf("name%d", i)))
 			default:
 				specs[i].name = genBytes(rt, fmt.Sprintf("name%d", i), rapid.IntRange(1, 40).Draw(rt, fmt.Sprintf("namelen%d", i)))
 			}
